@@ -45,11 +45,21 @@ def consumedStr : PR → String
     s!"{c.tcpSport}:{c.tcpDport}:{boolStr c.tcpSyn}{boolStr c.tcpAck}{boolStr c.tcpFin}{boolStr c.tcpRst}:" ++
     s!"{c.udpSport}:{c.udpDport}:{c.icmpType}"
 
-def parseSk? (t : String) : Option (Option (Nat × Nat)) :=
+/-- `-` or `<proto>:<mark>:<state>:<netns>:<tuple hex>` -/
+def parseSk? (t : String) : Option (Option SockEntry) :=
   if t = "-" then some none
   else match t.splitOn ":" with
-    | [a, b] => do let a ← a.toNat?; let b ← b.toNat?; pure (some (a, b))
+    | [pr, a, b, ns, tu] => do
+      let pr ← pr.toNat?; let a ← a.toNat?; let b ← b.toNat?; let ns ← ns.toNat?; let tu ← hexToBytes? tu
+      pure (some ⟨pr, a, b, ns, tu⟩)
     | _ => none
+
+def parseLpmKey? (tok : String) : Option C12.LpmKey := do
+  match tok.splitOn ":" with
+  | [l, h] =>
+    if h.length != 32 then none else
+    let l ← l.toNat?; let d ← hexToNat? h; pure ⟨l, d⟩
+  | _ => none
 
 def parseHook? : String → Option Hook
   | "li" => some .lanIngress
@@ -75,7 +85,7 @@ def constTable : List (String × Nat) := [
   ("TC_ACT_REDIRECT", TC_ACT_REDIRECT),
   ("UDP_CONN_STATE_TIMEOUT_NS", UDP_TIMEOUT), ("UDP_CONN_STATE_UPDATE_INTERVAL_NS", UPDATE_INTERVAL),
   ("TCP_CONN_STATE_ESTABLISHED_TIMEOUT_NS", TCP_EST_TIMEOUT), ("TCP_CONN_STATE_CLOSING_TIMEOUT_NS", TCP_CLOSING_TIMEOUT),
-  ("TCP_CONN_STATE_UPDATE_INTERVAL_NS", UPDATE_INTERVAL), ("HEADER_PULL_SIZE", 128),
+  ("TCP_CONN_STATE_UPDATE_INTERVAL_NS", UPDATE_INTERVAL),
   ("IPV6_MAX_EXTENSIONS", IPV6_MAX_EXTENSIONS), ("PARSE_FRAGMENT", PARSE_FRAGMENT), ("NDP_REDIRECT", NDP_REDIRECT),
   ("TCP_STATE_ACTIVE", 0), ("TCP_STATE_CLOSING", 1), ("BPF_TCP_LISTEN", BPF_TCP_LISTEN),
   ("DAE_EVENT_BLOCKED", EV_BLOCKED), ("DAE_EVENT_UDP_CONN_OVERFLOW", EV_UDP_OVERFLOW),
@@ -91,7 +101,6 @@ def constTable : List (String × Nat) := [
   ("off_routing_result_pid", 28), ("off_routing_result_dscp", 32),
   ("sizeof_routing_handoff_entry", 48), ("off_routing_handoff_entry_last_seen_ns", 0),
   ("off_routing_handoff_entry_result", 8),
-  ("sizeof_redirect_tuple", 32), ("sizeof_redirect_entry", 32), ("sizeof_pid_pname", 32),
   ("connectivity_max_entries", CONNECTIVITY_MAX),
   ("routingHandoffTimeout", HANDOFF_TIMEOUT),
   ("L4ProtoType_TCP", L4ProtoType_TCP), ("L4ProtoType_UDP", L4ProtoType_UDP),
@@ -108,11 +117,20 @@ def handle (st : St) (line : String) : St × String :=
       (resetSt { st with w := { st.w with connCap := a, handoffCap := b, rtrackCap := c } }, "ok")
     | _, _, _ => (st, "bad-op")
   | ["reset"] => (resetSt st, "ok")
-  | ["param", pid, sm, ifx, peer, mac] =>
-    match pid.toNat?, sm.toNat?, ifx.toNat?, peer.toNat?, hexToBytes? mac with
-    | some pid, some sm, some ifx, some peer, some mac =>
-      ({ st with w := { st.w with param := ⟨pid, sm, ifx, peer % 256 != 0, fit 6 mac⟩ } }, "ok")
-    | _, _, _, _, _ => (st, "bad-op")
+  | "param" :: pid :: sm :: ifx :: peer :: mac :: rest =>
+    match pid.toNat?, sm.toNat?, ifx.toNat?, peer.toNat?, hexToBytes? mac,
+        (match rest with | [] => some 0 | [ns] => ns.toNat? | _ => none) with
+    | some pid, some sm, some ifx, some peer, some mac, some ns =>
+      ({ st with w := { st.w with param := ⟨pid, sm, ifx, peer % 256 != 0, fit 6 mac, ns⟩ } }, "ok")
+    | _, _, _, _, _, _ => (st, "bad-op")
+  | "lpm" :: slot :: nk :: ks =>
+    match slot.toNat?, nk.toNat?, ks.mapM parseLpmKey? with
+    | some slot, some nk, some keys =>
+      if keys.length != nk then (st, "bad-op")
+      else if slot < C02.MaxLpmNum then
+        ({ st with maps := { st.maps with lpm := (slot, keys) :: st.maps.lpm.filter (·.1 != slot) } }, "ok")
+      else (st, "err=-7")
+    | _, _, _ => (st, "bad-op")
   | ["clock", t] =>
     match t.toNat? with
     | some t => ({ st with w := { st.w with now := t } }, "ok")
